@@ -79,7 +79,7 @@ def subterms(t):
 
 _TAGS = {'const', 'param', 'name', 'attr', 'sub', 'slice', 'call', 'binop', 'unop', 'cmp', 'boolop',
          'ifexp', 'tuple', 'list', 'set', 'dict', 'comp', 'bv', 'elem', 'item', 'phi', 'setitem',
-         'mut', 'lambda', 'localfn', 'exc', 'unknown', 'star', 'fstr', 'yield', 'truth', 'not', 'idx', 'tryfail', 'carried'}
+         'mut', 'lambda', 'localfn', 'exc', 'unknown', 'star', 'fstr', 'yield', 'truth', 'not', 'idx', 'tryfail', 'carried', 'partial'}
 
 
 def contains(t, sub):
@@ -281,6 +281,8 @@ def show(t, depth=0):
         return '%s{[%s]=%s}' % (show(t[1], d), show(t[2], d), show(t[3], d))
     if tag == 'mut':
         return '%s{.%s(%s)}' % (show(t[1], d), t[2], ', '.join(show(x, d) for x in t[3]))
+    if tag == 'partial':
+        return 'partial(%s, %s)' % (show(t[1], d), ', '.join([show(x, d) for x in t[2]] + ['%s=%s' % (k, show(v, d)) for k, v in t[3]]))
     if tag == 'lambda':
         return 'lambda/%d: %s' % (t[1], show(t[2], d))
     if tag == 'truth':
